@@ -92,6 +92,8 @@ func freshSource(rng *rand.Rand, uniq int) string {
 		fmt.Sprintf("%s v %s [%d, \"s%d\", %s] { %s(v) }", kw("for"), kw("in"), uniq, uniq, kw("null"), f),
 		fmt.Sprintf("%s = %s[%d:%d]\n%s = `q %d`.b", x, y, rng.Intn(3), 3+rng.Intn(3), y, uniq),
 		fmt.Sprintf("grok(_, \"%%{WORD:w%d}\")\nadd_key(k%d, %d.5e%d)", uniq, uniq, uniq, rng.Intn(5)),
+		// literals of every kind with fresh content: integers beyond int64 (decimal and hexadecimal), escapes, multi-line text
+		fmt.Sprintf("%s = 0x%x%016x + %d%019d\n%s = \"t\\t%d\\x41\\u00e9\" + '''m%d\nl'''", x, 1+rng.Intn(14), rng.Uint64(), 1+rng.Intn(8), rng.Int63(), y, uniq, uniq),
 	}
 	rng.Shuffle(len(parts), func(i, j int) { parts[i], parts[j] = parts[j], parts[i] })
 	src := strings.Join(parts[:1+rng.Intn(len(parts))], "\n")
